@@ -87,6 +87,13 @@ def tidalpy():
         f'TidalPy imported from {TidalPy.__file__}, expected {REPO}'
     TidalPy.test_mode = True
     logging.disable(logging.CRITICAL)
+    # numba 0.6x: a process whose first compiled call is a *cached* function that calls a cached parallel=True callee on an
+    # array segfaults because the threading layer was never launched (seen with the mode_calc_helper look-ups). Launch it.
+    try:
+        from numba.np.ufunc.parallel import _launch_threads
+        _launch_threads()
+    except Exception:
+        pass
     _tp = TidalPy
     return TidalPy
 
